@@ -33,10 +33,17 @@ func (s *Socks) SetHandler(handler func(s *Socks, conn net.Conn)) {
 }
 
 func (s *Socks) Start() error {
-	var (
-		err error
-		con net.Conn
-	)
+	if err := s.Listen(); err != nil {
+		return err
+	}
+
+	return s.Serve()
+}
+
+// Listen binds the proxy address. Split from Serve so that the caller learns about a bind
+// failure before it registers the proxy.
+func (s *Socks) Listen() error {
+	var err error
 
 	if s.handler == nil {
 		return errors.New("handler not specified")
@@ -45,6 +52,19 @@ func (s *Socks) Start() error {
 	/* listen on the specified addr */
 	if s.listener, err = net.Listen("tcp", s.addr); err != nil {
 		return err
+	}
+
+	return nil
+}
+
+func (s *Socks) Serve() error {
+	var (
+		err error
+		con net.Conn
+	)
+
+	if s.listener == nil {
+		return errors.New("not listening")
 	}
 
 	for {
